@@ -840,7 +840,7 @@ def layout_sig(k, modname):
 class C16(Prop):
     id = "C16"
     driver = "C16"
-    lean_modules = ["Pfb.C16.Props", "Pfb.C16.Obs"]
+    lean_modules = ["Pfb.C16.Props", "Pfb.C16.Obs", "Pfb.C16.ObsClass"]
     theorems = [
         "Pfb.C16.lp_frame",
         "Pfb.C16.C16_rollback",
@@ -876,6 +876,14 @@ class C16(Prop):
         "Pfb.C16.D18_invisible_to_obsEq",
         "Pfb.C16.witness_D17_captured_ref_not_obs",
         "Pfb.C16.witness_D46_aliasing_needed",
+        "Pfb.C16.lp_flatClass",
+        "Pfb.C16.lp_class_obs",
+        "Pfb.C16.C16_obs_partial_classes",
+        "Pfb.C16.C16_identity_kept",
+        "Pfb.C16.C16_identity_kept_flat",
+        "Pfb.C16.flatModuleC_of_flatModule",
+        "Pfb.C16.witness_D42_outside_flatClass",
+        "Pfb.C16.witness_D18_outside_flatClass",
     ]
     anchors = [
         ("lib/python/pyflyby/_livepatch.py", "livepatch"),
